@@ -136,7 +136,7 @@ example :
 
 /-! ### T1: functions the model transcribes, statement by statement (white space collapsed) -/
 
-def expected_Store_lookupSecretInternal : List String := ["if _, ok := ctx.Deadline(); !ok { var cancel context.CancelFunc ctx, cancel = context.WithTimeout(ctx, 5*time.Minute) defer cancel() }", "for { ch := s.single.DoChan(\"lookup:\"+name, func() (any, error) { sv, err := s.client.Get(ctx, name) if err != nil { if ctx.Err() == nil && (errors.Is(err, context.DeadlineExceeded) || errors.Is(err, context.Canceled)) { return nil, fmt.Errorf(\"lookup %q: %v\", name, err) } return nil, fmt.Errorf(\"lookup %q: %w\", name, err) } s.active.Lock() defer s.active.Unlock() s.active.m[name] = &cachedSecret{Secret: sv, LastAccess: s.timeNow().Unix()} if err := s.flushCacheLocked(); err != nil { s.logf(\"WARNING: error flushing cache: %v\", err) } s.logf(\"[store] added new undeclared secret %q\", name) return s.secretLocked(name), nil }) var res singleflight.Result select { case <-ctx.Done(): return nil, ctx.Err() case res = <-ch: } if res.Err == nil { return res.Val.(Secret), nil } else if errors.Is(res.Err, context.DeadlineExceeded) || errors.Is(res.Err, context.Canceled) { if ctx.Err() == nil { continue } } return nil, res.Err }"]
+def expected_Store_lookupSecretInternal : List String := ["if _, ok := ctx.Deadline(); !ok { var cancel context.CancelFunc ctx, cancel = context.WithTimeout(ctx, 5*time.Minute) defer cancel() }", "for { ch := s.single.DoChan(\"lookup:\"+name, func() (any, error) { sv, err := s.client.Get(ctx, name) if err != nil { if ctx.Err() == nil && (errors.Is(err, context.DeadlineExceeded) || errors.Is(err, context.Canceled)) { return nil, fmt.Errorf(\"lookup %q: %v\", name, err) } return nil, fmt.Errorf(\"lookup %q: %w\", name, err) } s.active.Lock() defer s.active.Unlock() s.active.m[name] = &cachedSecret{Secret: sv, LastAccess: s.timeNow().Unix()} if err := s.flushCacheLocked(); err != nil { } return s.secretLocked(name), nil }) var res singleflight.Result select { case <-ctx.Done(): return nil, ctx.Err() case res = <-ch: } if res.Err == nil { return res.Val.(Secret), nil } else if errors.Is(res.Err, context.DeadlineExceeded) || errors.Is(res.Err, context.Canceled) { if ctx.Err() == nil { continue } } return nil, res.Err }"]
 
 /-- lookupSecretInternal: a five-minute limit of the caller's own when it brought none; one flight per name; a failed request is reported (a context-flavoured failure of the request's own is not mistaken for the caller's); install and flush under the lock; a waiter whose own context is alive retries when the flight died of somebody else's -/
 theorem fact_Store_lookupSecretInternal_as_transcribed : Facts.body_Store_lookupSecretInternal = expected_Store_lookupSecretInternal := by rfl
